@@ -422,6 +422,59 @@ def do_close_labels_and_copies(hub, U, letters, rng):
                     pass
 
 
+def do_key_object_reuse(hub, U, letters, rng):
+    """one key OBJECT (dict by name / by letter / mixed, tuple, list inside a dict) is used on several arrays in turn - among them an
+    array in which the same dimension NAMES stand under other LETTERS - and every use is compared with the use of an equal key built
+    afresh on the same array: a key addresses the same entries however often and wherever the object was used before"""
+    fd, rec = hub.fd, hub.rec
+    import copy as _copy
+
+    M = "key-object-reuse"
+    if len(letters) < 2:
+        return
+    rot = list(letters[1:]) + [letters[0]]
+    try:
+        dims_x = gen.dimset(fd, U, letters)
+        dims_y = fd.DimensionSet(dim_list=[fd.Dimension(letter=rot[i], name=U[l].name, items=list(U[l].items), dtype=U[l].dtype) for i, l in enumerate(letters)])
+    except Exception:
+        return
+    shp = gen.shape_of(U, letters)
+    x = fd.FlodymArray(dims=dims_x, values=gen.values_one("dyadic", rng, shp))
+    y = fd.FlodymArray(dims=dims_y, values=gen.values_one("dyadic", rng, shp) + 512.0)
+    l0, l1 = letters[0], letters[-1]
+    i0 = U[l0].items[int(rng.integers(0, len(U[l0].items)))]
+    i1 = U[l1].items[int(rng.integers(0, len(U[l1].items)))]
+    some1 = [U[l1].items[int(j)] for j in rng.permutation(len(U[l1].items))[: max(1, len(U[l1].items) - 1)]]
+    keys = [{U[l0].name: i0}, {U[l0].name: i0, U[l1].name: i1}, {l0: i0, U[l1].name: some1}, {U[l1].name: some1}, {l0: i0}, {U[l1].name: i1, l0: i0}]
+
+    def outcome(arr, key, write):
+        try:
+            if write:
+                t = arr.copy()
+                t[key] = 7.5
+                return ("ok", tuple(t.dims.letters), np.array(t.values, dtype=float))
+            r = arr[key]
+            return ("ok", tuple(r.dims.letters), np.array(r.values, dtype=float))
+        except Exception as e:
+            return ("raised", type(e).__name__, None)
+
+    for k in keys:
+        fresh = _copy.deepcopy(k)
+        order = [x, y, x] if rng.random() < 0.5 else [y, x, y]
+        for n_use, arr in enumerate(order):
+            for write in (False, True):
+                with hub.pause():
+                    want = outcome(arr, _copy.deepcopy(fresh), write)
+                got = outcome(arr, k, write)
+                rec.event(M, sig=f"{sorted(map(str, fresh))}|use{n_use}|{'w' if write else 'r'}|{len(letters)}", cls=f"{'write' if write else 'read'}|use number {n_use + 1} of the key object|{'refused' if want[0] == 'raised' else 'answered'}")
+                same = got[0] == want[0] and (got[0] == "raised" or (got[1] == want[1] and got[2].shape == want[2].shape and np.array_equal(got[2], want[2], equal_nan=True)))
+                if not same:
+                    rec.violation(M, f"a-key-object-used-before-addresses-other-entries-than-an-equal-fresh-key:{'write' if write else 'read'}",
+                                  dict(key_as_built=repr(fresh)[:200], key_object_now=repr(k)[:200], use_number=n_use + 1, with_used_object=repr(got[:2]), with_fresh_key=repr(want[:2]),
+                                       array_dims=[(d.letter, d.name) for d in arr.dims]))
+                    return
+
+
 def do_errors(hub, U, letters, rng):
     fd = hub.fd
     x = fd.FlodymArray(dims=gen.dimset(fd, U, letters), values=gen.values_one("dyadic", rng, gen.shape_of(U, letters)))
